@@ -979,6 +979,10 @@ class MultiCall(object):
         del self._job_list[:]
         if not responses:
             responses = []
+        elif isinstance(responses, utils.DictType):
+            # The server answered the whole batch with a single object: this
+            # is the way errors concerning the batch itself are reported
+            check_for_errors(responses)
         return MultiCallIterator(responses)
 
     @property
